@@ -83,16 +83,19 @@ pub fn fuzz_stage(
             .output()
             .map_err(|e| format!("cannot run fuzz target: {e}"))?;
         let text = String::from_utf8_lossy(&output.stderr).to_string();
-        // executed units: last "#N" progress marker of the fork-mode log
+        // executed units: the fork-mode parent prints `#<total>: cov: ...` summary lines
         let execs = text
             .lines()
-            .rev()
-            .find_map(|l| {
+            .filter_map(|l| {
                 let l = l.trim_start();
-                l.strip_prefix('#')
-                    .and_then(|r| r.split(|c: char| !c.is_ascii_digit()).next())
-                    .and_then(|n| n.parse::<u64>().ok())
+                let r = l.strip_prefix('#')?;
+                let (n, rest) = r.split_once(':')?;
+                if !rest.contains("cov:") {
+                    return None;
+                }
+                n.trim().parse::<u64>().ok()
             })
+            .max()
             .unwrap_or(0);
         let corpus_units = std::fs::read_dir(&corpus).map(|r| r.count()).unwrap_or(0);
         report.push(json!({"target": target, "oracle": oracle, "seconds": secs, "jobs": jobs,
